@@ -304,4 +304,66 @@ Proof.
   - intros _; reflexivity.
 Qed.
 
+
+Definition own_ev (e : event) : bool :=
+  match e with
+  | EDepWait _ _ | EDepDone _ _ | ESkip | ERunChecked _ | EStarted | ELaunch _ | EWaitReturn _ | EExitCode _ | ELookupMid _
+  | ERestartDecision _ | EBackoffWait _ | EBackoffElapsed | EBackoffCancelled | ERunReturned _ | EInstDone | EExitTrigger _
+  | EExitCodeSet _ | EInstExit | EWgDone | EInstGone => true
+  | _ => false
+  end.
+Lemma step_own_ev s th e s' : step_own s th e = Some s' -> own_ev e = true.
+Proof.
+  intros H. destruct e; try reflexivity; unfold step_own in H; destruct (own_inst s th) as [[? ?]|]; try discriminate H;
+  try (destruct (pc _); discriminate H).
+Qed.
+
+Lemma late_commit_W o i f : o_stopreq (oi_get o i) = true -> W_C03 (oi_upd i f (note_late_commit o i)) = true.
+Proof.
+  intros H. unfold W_C03. autorewrite with obsf. unfold note_late_commit. rewrite H.
+  destruct (stopping o i); cbn; rewrite ?orb_true_r; reflexivity.
+Qed.
+
+Lemma Inv_own s o th e s' : Rc cs s o -> Inv s o -> pend (get_thread s th) = None -> step_own s th e = Some s' ->
+  W_C03 (obs_pre cs o (th, e)) = false -> Inv s' (obs_pre cs o (th, e)).
+Proof.
+  intros HRc HI Hpn H HW. pose proof (step_own_ev _ _ _ _ H) as Hev.
+  destruct (step_own_mono _ _ _ _ H) as (i & x & x' & Hth & Hx & Hx' & Hoth & En & Ed & Er & Hg & Hnl & Hrp & Hbad & Hthr).
+  assert (Hbwd : forall j y', get j (insts s') = Some y' -> exists y, get j (insts s) = Some y /\ nm y' = nm y /\
+            l_done y' = l_done y /\ l_runctx y' = l_runctx y /\ (gonepc (pc y) = true -> gonepc (pc y') = true) /\
+            (nl y = true -> nl y' = true) /\ (j <> i -> y' = y)).
+  { intros j y' Hy'. destruct (N.eq_dec j i) as [->|Hne].
+    - assert (y' = x') by congruence. subst y'. exists x. repeat split; auto. congruence.
+    - rewrite (Hoth j Hne) in Hy'. exists y'. repeat split; auto. }
+  constructor.
+  - eapply c_inst_own; eauto.
+  - intros a b xa xb Ha Hb Hab Hn. destruct (Hbwd _ _ Ha) as (ya & Hya & Ena & _ & _ & Hga & _).
+    destruct (Hbwd _ _ Hb) as (yb & Hyb & Enb & _ & _ & Hgb & _).
+    destruct (iv_name _ _ HI a b ya yb Hya Hyb Hab) as [G|G]; [congruence|left; auto|right; auto].
+  - intros n v' Hv' Hr. destruct (step_own_vst _ _ _ _ H n v' Hv') as (v & Hv & Est). rewrite Est in Hr.
+    destruct (iv_run _ _ HI n v Hv Hr) as (j & y & Hy & Hn & Hd & Hp).
+    destruct (N.eq_dec j i) as [->|Hne].
+    + assert (y = x) by congruence. subst y. exists i, x'. repeat split; auto; congruence.
+    + exists j, y. rewrite (Hoth j Hne). auto.
+  - intros th' order Hd. destruct (Hthr th') as (_ & Edp & _). rewrite Edp in Hd.
+    rewrite obs_pre_sd_cur by (destruct e; try discriminate Hev; exact I). now apply (iv_sd _ _ HI).
+  - intros th' k Hs. destruct (Hthr th') as (Esp & _ & Epd). rewrite Esp in Hs |- *.
+    destruct (iv_pend _ _ HI th' k Hs) as (y & Hy & Hst & Hb & Hp).
+    assert (Hst' : o_stopreq (oi_get (obs_pre cs o (th, e)) k) = true)
+      by (apply obs_pre_stopreq_get; [destruct e; try discriminate Hev; exact I|exact Hst]).
+    destruct (N.eq_dec k i) as [->|Hne].
+    + assert (y = x) by congruence. subst y. exists x'. split; [exact Hx'|]. split; [exact Hst'|]. split.
+      * destruct (badpc (pc x')) eqn:Eb; [|reflexivity]. destruct (Hbad eq_refl) as [Hc|Hc]; [congruence|]. subst e.
+        exfalso. cbn [obs_pre ev_inst fst snd] in HW. rewrite <- (rc_th _ _ _ HRc th), Hth in HW.
+        rewrite late_commit_W in HW by exact Hst. discriminate.
+      * intros HE. destruct (N.eq_dec th' th) as [->|Hne']; [|rewrite (Epd Hne'), Er; auto].
+        destruct (Hp HE) as [Hp'|Hp']; [congruence|right; congruence].
+    + exists y. rewrite (Hoth k Hne). split; [exact Hy|]. split; [exact Hst'|]. split; [exact Hb|].
+      intros HE. destruct (N.eq_dec th' th) as [->|Hne']; [|rewrite (Epd Hne'); auto].
+      destruct (Hp HE) as [Hp'|Hp']; [congruence|right; congruence].
+  - intros Hsd j y' Hy'. rewrite obs_pre_sd_done in Hsd by (destruct e; try discriminate Hev; exact I).
+    rewrite obs_pre_after by (destruct e; try discriminate Hev; exact I).
+    destruct (Hbwd _ _ Hy') as (y & Hy & _ & _ & _ & _ & Hn & _).
+    destruct (iv_after _ _ HI Hsd j y Hy); auto.
+Qed.
 End RelC03.
